@@ -576,6 +576,54 @@ def _dump_float(value: float) -> Union[float, str]:
     return value
 
 
+def _dump_json_value(proto_type: str, value: Any, cls: Any = None) -> Any:
+    """JSON form of a map value or of the value inside a wrapper message: the same
+    forms to_dict gives the elements of a repeated field of that type."""
+    if value is None:
+        return None
+    if isinstance(value, datetime):
+        return _Timestamp.timestamp_to_json(value)
+    if isinstance(value, timedelta):
+        return _Duration.delta_to_json(value)
+    if proto_type in INT_64_TYPES:
+        return str(value)
+    if proto_type == TYPE_BYTES:
+        return b64encode(value).decode("utf8")
+    if proto_type == TYPE_ENUM and cls is not None:
+        return _dump_enum(cls, value)
+    if proto_type in (TYPE_FLOAT, TYPE_DOUBLE):
+        return _dump_float(value)
+    return value
+
+
+def _parse_json_value(proto_type: str, value: Any, cls: Any = None) -> Any:
+    """Inverse of :func:`_dump_json_value` (``cls`` is the Python type of the value)."""
+    if cls is datetime:
+        return isoparse(value)
+    if cls is timedelta:
+        return _Duration.delta_from_json(value)
+    if proto_type == TYPE_MESSAGE:
+        return cls.from_dict(value)
+    if proto_type in INT_64_TYPES:
+        return int(value)
+    if proto_type == TYPE_BYTES:
+        return b64decode(value)
+    if proto_type == TYPE_ENUM and cls is not None:
+        return cls.from_string(value) if isinstance(value, str) else cls.try_value(value)
+    if proto_type in (TYPE_FLOAT, TYPE_DOUBLE):
+        return _parse_float(value)
+    return value
+
+
+def _parse_json_key(proto_type: str, key: Any) -> Any:
+    """JSON text only has string keys: give a map key the type of its key field back."""
+    if isinstance(key, str) and proto_type != TYPE_STRING:
+        if proto_type == TYPE_BOOL:
+            return key == "true"
+        return int(key)
+    return key
+
+
 class _TruncatedVarint(EOFError):
     """The stream ended in the middle of a varint rather than before one."""
 
@@ -1558,7 +1606,7 @@ class Message(ABC):
                         output[cased_name] = _Duration.delta_to_json(value)
                 elif meta.wraps:
                     if value is not None or include_default_values:
-                        output[cased_name] = value
+                        output[cased_name] = _dump_json_value(meta.wraps, value)
                 elif field_is_repeated:
                     # Convert each item.
                     cls = self._betterproto.cls_by_field[field_name]
@@ -1586,9 +1634,14 @@ class Message(ABC):
                     output[cased_name] = value.to_dict(casing, include_default_values)
             elif meta.proto_type == TYPE_MAP:
                 output_map = {**value}
+                value_cls = self._betterproto.cls_by_field[f"{field_name}.value"]
                 for k in value:
                     if hasattr(value[k], "to_dict"):
                         output_map[k] = value[k].to_dict(casing, include_default_values)
+                    else:
+                        output_map[k] = _dump_json_value(
+                            meta.map_types[1], value[k], value_cls
+                        )
 
                 if value or include_default_values:
                     output[cased_name] = output_map
@@ -1678,9 +1731,17 @@ class Message(ABC):
                         if isinstance(value, list)
                         else sub_cls.from_dict(value)
                     )
-            elif meta.map_types and meta.map_types[1] == TYPE_MESSAGE:
+                else:
+                    value = _parse_json_value(meta.wraps, value)
+            elif meta.map_types:
+                key_type, value_type = meta.map_types
                 sub_cls = cls._betterproto.cls_by_field[f"{field_name}.value"]
-                value = {k: sub_cls.from_dict(v) for k, v in value.items()}
+                value = {
+                    _parse_json_key(key_type, k): _parse_json_value(
+                        value_type, v, sub_cls
+                    )
+                    for k, v in value.items()
+                }
             else:
                 if meta.proto_type in INT_64_TYPES:
                     value = (
